@@ -91,10 +91,13 @@ def run_one(rec: Rec, spec, steps, family, kind, style, mode):
         a.calc = factory()
         return float(a.get_potential_energy())
 
-    def viol(key, what, witness):
-        if st["two_exchanges"]:
+    def viol(key, what, witness, crashed=False):
+        # Known finding: a plain composite with two exchange moves acts on stale labels / indices.  Only what that
+        # mechanism directly produces is attributed to it: a crash of the simulation after such a trial, or a violation
+        # observed in the very trial in which two exchanges acted.  Everything else keeps its own key.
+        if (crashed and st["two_exchanges"]) or st.get("two_exchanges_this_trial"):
             key = "C04/two-exchange-moves-succeed-in-one-plain-composite-trial"
-            what = "after a plain composite (built with +) performed two exchange moves in one trial: " + what
+            what = "a plain composite (built with +) performed two exchange moves in one trial: " + what
         rec.viol(key, what, witness)
 
     def snap(m):
@@ -106,6 +109,7 @@ def run_one(rec: Rec, spec, steps, family, kind, style, mode):
         st["base"] = t.after.get("ncalc")
         if t.k == 0 and mode == "A" and countable and st.get("end_of_step") is not None and t.before.get("ncalc") != st["end_of_step"]:
             viol("C04/evaluation-count/starting-a-run-costs-an-evaluation", f"{t.before['ncalc'] - st['end_of_step']} energy evaluation(s) were spent between the end of one run call and the first trial of the next", wit0)
+        st["two_exchanges_this_trial"] = EXCH["ok"] >= 2
         if EXCH["ok"] >= 2:
             st["two_exchanges"] = True
         EXCH["ok"] = 0
@@ -175,6 +179,7 @@ def run_one(rec: Rec, spec, steps, family, kind, style, mode):
         rec.sample({**wit, "energy": e_true}, cap=3)
 
     def check_count(where):
+        st["two_exchanges_this_trial"] = False
         """Between the end of the last trial and now only the package's own Logger ran: it must not cost an evaluation."""
         if not countable or mode != "A" or not hasattr(calc, "ncalc"):
             return
@@ -198,7 +203,7 @@ def run_one(rec: Rec, spec, steps, family, kind, style, mode):
             how = "after-reverted-exchange" if st["after_reverted_exchange"] else "other"
             viol(f"C04/calculator-unusable/{style if kind == 'soft' else kind}/{how}", f"the calculator raised {type(ex).__name__}: {ex} on its next use"[:300], {**wit0, "traceback": traceback.format_exc()[-500:]})
         else:
-            viol(f"C04/run-raised/{classify_exception(ex)}", f"simulation raised {type(ex).__name__}: {ex}"[:300], {**wit0, "traceback": traceback.format_exc()[-500:]})
+            viol(f"C04/run-raised/{classify_exception(ex)}", f"simulation raised {type(ex).__name__}: {ex}"[:300], {**wit0, "traceback": traceback.format_exc()[-500:]}, crashed=True)
     rec.count("keyed_results_handed_out", getattr(calc, "handed_out", 0))
 
 
